@@ -107,9 +107,12 @@ PROPS["C18"] = {
     "level": "exploration",
     "rule": ("Scenario = 2-4 keys, two servers bound to caches c1/c2 (70%), optional memory store, purges {c1, c2, all, unknown cache, absent key} racing fetches with 0-4 waiters. "
              "Oracle = after a purge returned the next request must reach the upstream (or be answered by a fetch still in flight at purge time), the store holds no record, other caches/keys keep their hits, the purge returns at once. "
-             "Non-trivial = purge of a fresh entry followed by a request, or purge during a fetch with a waiter."),
-    "assumptions": _SIM_ASSUME,
-    "jobs": [_sim("TestC18", 1500, 40000)],
+             "Non-trivial = purge of a fresh entry followed by a request, or purge during a fetch with a waiter. "
+             "TestC18Admin (real sockets): the same purge kinds through the real admin endpoint DELETE /cache?key=&cache= on two servers/caches with keys that need query escaping, "
+             "plus purges issued 120 ms into a 1 s upstream fetch with two waiters (must return before the fetch ends; all three requests must complete correctly)."),
+    "assumptions": _SIM_ASSUME + ["in the real-socket part a purge counts as blocked only if it took more than 800 ms and returned no earlier than the 1 s fetch completed"],
+    "jobs": [_sim("TestC18", 1500, 40000),
+             {"engine": "netw", "test": "TestC18Admin", "quick": {"shards": 16, "checks": 8, "timeout": 600, "shrinktime": "30s"}, "thorough": {"shards": 16, "checks": 300, "timeout": 3400, "shrinktime": "60s"}}],
 }
 
 PROPS["C09"] = {
